@@ -389,6 +389,29 @@ pub fn lookalikes() -> Vec<Call> {
         add("haystack_value_get_datetime_timezone", vec![v(7 + i)]);
         add("haystack_value_to_zinc_string", vec![v(7 + i)]);
     }
+    // overwriting an entry with a value that is `==` to the stored one but differs in content (a Ref with another
+    // display name, -0.0 over 0.0, a list holding such a value): what was put in last is what comes out
+    add("haystack_value_make_dict", vec![]); // @13
+    add("haystack_value_make_ref_with_dis", vec![cs("r1"), cs("A")]); // @14
+    add("haystack_value_make_ref_with_dis", vec![cs("r1"), cs("B")]); // @15
+    add("haystack_value_make_ref", vec![cs("r1")]); // @16
+    add("haystack_value_make_number", vec![A::X(0.0)]); // @17
+    add("haystack_value_make_number", vec![A::X(-0.0)]); // @18
+    add("haystack_value_make_list", vec![]); // @19
+    add("haystack_value_make_list", vec![]); // @20
+    add("haystack_value_push_list_entry", vec![v(19), v(14)]);
+    add("haystack_value_push_list_entry", vec![v(20), v(15)]);
+    for (key, first, second) in [("k", 14, 15), ("k", 15, 16), ("k", 16, 14), ("z", 17, 18), ("z", 18, 17), ("l", 19, 20)] {
+        add("haystack_value_insert_dict_entry", vec![v(13), cs(key), v(first)]);
+        add("haystack_value_insert_dict_entry", vec![v(13), cs(key), v(second)]);
+        add("haystack_value_get_dict_entry", vec![v(13), cs(key), A::O(true)]);
+        add("haystack_value_to_zinc_string", vec![v(13)]);
+        add("haystack_value_to_json_string", vec![v(13)]);
+    }
+    add("haystack_value_push_list_entry", vec![v(19), v(17)]);
+    add("haystack_value_set_list_entry_at", vec![v(19), A::N(1), v(18)]);
+    add("haystack_value_set_list_entry_at", vec![v(19), A::N(0), v(15)]);
+    add("haystack_value_to_zinc_string", vec![v(19)]);
     calls
 }
 
